@@ -7,8 +7,6 @@ package main
 // (variant "share").
 
 import (
-	"fmt"
-
 	z "github.com/Oudwins/zog"
 
 	"verif/harness/internal/eng"
@@ -94,21 +92,8 @@ func genChain(g *eng.Gen, kind string) []bcall {
 func applyChain(kind, coercer string, calls []bcall, rec *eng.Recorder) z.ZogSchema {
 	node := &eng.Node{Kind: "prim", PK: kind}
 	var opts []z.SchemaOption
-	switch coercer {
-	case "plus100":
-		opts = append(opts, z.WithCoercer(func(v any) (any, error) {
-			if n, ok := v.(int); ok {
-				return n + 100, nil
-			}
-			return nil, fmt.Errorf("plus100: unsupported")
-		}))
-	case "strlen":
-		opts = append(opts, z.WithCoercer(func(v any) (any, error) {
-			if s, ok := v.(string); ok {
-				return len(s), nil
-			}
-			return nil, fmt.Errorf("strlen: unsupported")
-		}))
+	if coercer != "-" {
+		opts = append(opts, z.WithCoercer(eng.NamedCoercer(coercer)))
 	}
 	switch kind {
 	case "str":
@@ -199,8 +184,15 @@ func streamBuilder(seed uint64, n int, driver string) (*Summary, error) {
 		g := &eng.Gen{R: root.Fork()}
 		kind := rng.Pick(g.R, []string{"str", "str", "int", "int", "bool"})
 		coercer := "-"
-		if kind == "int" && g.R.P(1, 6) {
-			coercer = rng.Pick(g.R, []string{"plus100", "strlen"})
+		if g.R.P(1, 6) {
+			switch kind {
+			case "int":
+				coercer = rng.Pick(g.R, []string{"plus100", "strlen"})
+			case "str":
+				coercer = "sfx"
+			case "bool":
+				coercer = "yn"
+			}
 		}
 		calls := genChain(g, kind)
 		node := &eng.Node{Kind: "prim", PK: kind}
